@@ -16,18 +16,25 @@ class C04(Prop):
     search_factor = 3
     shard = 300
     ready = True
-    rule = ("translator tools/gen/routes (go/ast) regenerates the four registration tables; the drivers start the REAL api / "
-            "metrics / pprof / playback servers on scratch ports with a real auth.Manager (8-row permission matrix: users x "
-            "actions x client IPs, one per-path playback user, one `any` user) and send real HTTP requests: every (method, "
+    rule = ("translator tools/gen/routes (go/ast) regenerates the four registration tables (with the fact that Initialize "
+            "hands the configured trusted-proxy list to gin unconditionally); the drivers start TWO instances of the REAL api / "
+            "metrics / pprof / playback servers on scratch ports (one with the trusted proxy 127.0.0.1/32, one with NO trusted "
+            "proxies) with a real auth.Manager (10-row permission matrix: users x actions x client IPs, one per-path playback "
+            "user, `any` users, users admitted from the real loopback peer only) and send real HTTP requests: every (method, "
             "pattern) of gin's own Routes() allowed / without credentials / with a random identity, every other method on "
             "every pattern, unknown URLs, then seeded random ones; credential placement none / Basic / Bearer user:pass / "
-            "bearer token / query; client IP through X-Forwarded-For. Non-trivial = a response that carries data or a 401; "
+            "bearer token / query; client IP through X-Forwarded-For from the trusted proxy, plus client-address cases: "
+            "connections from 127.0.0.1 and 127.0.0.2 to both instances with X-Forwarded-For and/or X-Real-Ip naming an "
+            "admitted address, or without them (the entitled client address is the forwarded one only when the real peer is a "
+            "configured trusted proxy). Non-trivial = a response that carries data or a 401; "
             "distinct = distinct request/response descriptions")
     trusted_base = ["Coq 8.16.1 kernel + VM",
                     "translator tools/gen/routes (validated by the real requests: the generated tables must predict every response)",
                     "oracle: auth.Manager.Authenticate admit decision per action (subject of C01/C02), called directly by the driver",
                     "oracle: conf.IsValidPathName (subject of C06)",
                     "gin: route matching and Context.Next/Abort (modelled: chain compiled at registration time, Abort stops later handlers)",
+                    "gin: Context.ClientIP (modelled: forwarding headers are believed iff the peer is in the list given to "
+                    "SetTrustedProxies, every peer if it was never called; exercised by real requests from two peer addresses)",
                     "in-package drivers zz_verif_c04_test.go + zz_verif_c04lib_test.go"]
     assumptions = ["a response 'carries data' iff its body is none of: empty, the authentication-error JSON, gin's 404 text, the "
                    "invalid-path-name JSON error; or a stub behind the handlers was reached",
@@ -39,7 +46,9 @@ class C04(Prop):
              "Abort / return on failure, first access) are translated from the Go source on every run. Coq proves for EVERY such "
              "table, every admit oracle and every request: if the decidable table condition holds, a response carries data only "
              "for a client admitted for the server's action (playback: on the requested path, validated first), refused requests "
-             "get exactly 401 / 400 / 404 without data, preflights get 204 without consulting the manager; vm_compute shows the "
+             "get exactly 401 / 400 / 404 without data, preflights get 204 without consulting the manager; the client address used "
+             "is the forwarded one only for a configured trusted proxy, and the response to any other peer does not depend on its "
+             "X-Forwarded-For / X-Real-Ip headers (non-interference); vm_compute shows the "
              "conditions hold for the generated tables. Real requests against the four real servers with a real auth.Manager tie "
              "the tables to the code and give concrete replays.",
         note="Trusted: Coq kernel+VM, the go/ast translator (validated by the real requests), gin's routing, the Authenticate "
